@@ -108,6 +108,10 @@ extern "C" fn handler(sig: libc::c_int) {
 
 /// Install the handler; `path` is where the crashing case is written.
 pub fn install(path: &str) {
+    if cfg!(miri) {
+        // the interpreter reports the fault itself; signal handlers are not available there
+        return;
+    }
     let c = std::ffi::CString::new(path).unwrap();
     PATH.store(c.into_raw() as *mut u8, Ordering::Release);
     unsafe {
